@@ -131,6 +131,9 @@ def run_histories(ctx, desc):
                 code, reg = random_code(rng), rng.randrange(256)
                 data = bytes(rng.getrandbits(8) for _ in range(5))
                 target = K if rng.random() < 0.85 else K + 1
+                if ops and ops[-1][0] == "frame" and rng.random() < 0.2:
+                    # a device reports the very same error again, byte for byte: another entry like any other
+                    code, reg, data, target = int(ops[-1][1], 16), ops[-1][2], bytes.fromhex(ops[-1][3]), ops[-1][4]
                 ops.append(("frame", hex(code), reg, data.hex(), target))
                 if rng.random() < 0.15 and not desc["threaded"]:
                     # interfaces without hardware timestamps report 0.0 (or an int 0) for every frame; the entry keeps it
@@ -255,6 +258,33 @@ def run_waits(ctx, desc):
                           "callback was still running (15 s)", case)
         elif status != "returned" or val is None or val.code != code_c:
             ctx.violation("emcy-wait-nofilter", f"wait() ended {status} with {val!r} after frame {code_c:#x}", case)
+        # 1d. the waiter is held right after it has left its critical section, and another frame is logged meanwhile: the
+        #     entry it is handed is still the one it was woken for
+        import threading as _th2
+        gate = {"hold": "waiter", "waiter": None, "armed": False, "left": _th2.Event(), "go": _th2.Event(), "max": 20.0}
+        cond.exit_gate = gate
+        code_d, code_e = random_code(rng) | 0x1000, random_code(rng) | 0x2000
+
+        def held_wait():
+            gate["waiter"] = _th2.get_ident()
+            return node.emcy.wait(None, 40)
+
+        def first_then_second():
+            gate["armed"] = True
+            send(code_d, 1)
+            if gate["left"].wait(15.0):
+                send(code_e, 2)
+            gate["go"].set()
+        status, val = waits.run_waiter(held_wait, cond, first_then_second)
+        cond.exit_gate = None
+        ctx.count("wait_cases")
+        ctx.case(("wait-held-after-critical-section",))
+        case = {"workload": "waits", "kind": "held-after-critical-section", "first": code_d, "second": code_e}
+        if status in ("hung", "never-waited"):
+            ctx.inconc(f"emcy.wait held after its critical section: {status}", case)
+        elif status != "returned" or val is None or val.code != code_d or val.register != 1:
+            ctx.violation("emcy-wait-handed-a-later-entry", f"woken by frame {code_d:#x}; a second frame {code_e:#x} was logged right after the waiter had left its "
+                          f"critical section; wait() ended {status} with code {getattr(val, 'code', None)!r}", case)
         # 2. filter: a non-matching frame first, then the matching one
         for want in (0x0000, rng.choice([0x8130, 0x2310, 0xFF01, 0x00FF])):
             wrong = want ^ 0x0100
@@ -359,7 +389,8 @@ def run_waits(ctx, desc):
                               "while non-matching frames kept arriving", case)
             elif status != "returned" or (val is not None and (val.code != 0x3333 or val.register != 6)):
                 ctx.violation("emcy-wait-filter", f"wait(0x3333) ended {status} with {val!r}", case)
-        # 4. only non-matching frames: None
+        # 4. only non-matching frames: None - also when the last entry logged *before* the wait has the awaited code
+        send(0x1234, 8)
         status, val = waits.run_waiter(lambda: node.emcy.wait(0x1234, 0.05), cond, lambda: send(0x4321))
         ctx.count("wait_cases")
         ctx.case(("wait-filter-timeout",))
